@@ -2,29 +2,39 @@ package logx
 
 // Trace recorder for property C19 (overlaid into lib/logx by /verif/bin/check).
 //
-// It executes TLC-generated write histories (spec/RotateLogGen.tla) on the real RotateLogger
-// (NewLogger / Write / Close) in a scratch directory and, after every Write and after Close,
-// reads the directory back (gunzipping compressed backups) and records which record ids are in
-// which file.  The driver judges nothing: spec/RotateLogTrace.tla decides.
+// It executes TLC-generated write histories (spec/RotateLogGen.tla) on the real rotating log
+// writers in a scratch directory and, after every step, reads the directory back (gunzipping
+// compressed backups) and records which record ids are in which file.  The driver judges
+// nothing: spec/RotateLogTrace.tla decides.
 //
-// Family "config" (cfg.via = "config"): the writers are built the way the logging configuration
-// builds them - newFileWriter(Config{Path, Rotation, MaxSize (MB), MaxBackups, KeepDays,
-// Compress}), i.e. handleOptions + createOutput, as Setup(Mode "file") does - and the access-log
-// RotateLogger it returns is driven; the relation is evaluated against the CONFIGURED values.
+// Families (cfg.via):
+//   ""        NewLogger(filename, rule, compress) with a rule built directly, Write, Close.
+//   "config"  the writers are built the way the logging configuration builds them -
+//             newFileWriter(Config{Path, Rotation, MaxSize (MB), MaxBackups, KeepDays, Compress}),
+//             i.e. handleOptions + createOutput - and the access-log RotateLogger is driven.
+//   "public"  the public API: Setup(Config{Mode: "file", ...}), then Info / Error / Slow / Stat /
+//             Severe with self-identifying contents, then Close().  Each of the five log files is
+//             its own writer and its own history in the trace; the package state that Setup
+//             guards (setupOnce, writer, options, disableLog) is reset per case.
+// Steps: write (followed by a barrier), burst (several writes with no barrier between them: they
+// race the post-rotation compress/clean-up goroutine; the directory is read at quiescence),
+// daychange (daily rule, simulated through the rule), close, closeq (writes still queued when
+// Close is called).
 //
-// In-package only for: a SizeLimitRotateRule with a maximum in bytes (the public constructor
-// takes megabytes) and DailyRotateRule.rotatedTime (simulated day change).  The logger is given
+// In-package for: a SizeLimitRotateRule maximum in bytes, DailyRotateRule.rotatedTime (simulated
+// day change), the option/once state reset, and the barrier: every logger's rule is fronted by
 // a driver-supplied RotateRule that delegates ShallRotate / MarkRotated / OutdatedFiles to the
-// real rule; it (a) recognises the driver's empty barrier record (the n-th ShallRotate call is
-// the n-th record: once the writer goroutine asks about the barrier record, every earlier
-// record is completely processed) and (b) in "counter" mode produces backup names in the real
-// rule's format but with a synthetic, strictly increasing time, so that rotations need not be a
-// real second (size rule) or a real day (daily rule) apart.  In "real" mode BackupFilename is
-// the real rule's and the driver keeps file starts 1.1 s apart.
+// real rule.  It (a) recognises the driver's empty barrier record (ShallRotate is asked about
+// currentSize+0; once the writer goroutine asks, every earlier record is completely processed)
+// and (b) in "counter" mode produces backup names in the real rule's format but with a
+// synthetic, strictly increasing time, so that rotations need not be a real second (size rule)
+// or a real day (daily rule) apart.  In "real" mode BackupFilename is the real rule's and the
+// driver keeps file starts 1.1 s apart.
 
 import (
 	"bytes"
 	"compress/gzip"
+	"encoding/json"
 	"fmt"
 	"io"
 	"os"
@@ -34,6 +44,7 @@ import (
 	"sort"
 	"strconv"
 	"strings"
+	"sync"
 	"sync/atomic"
 	"testing"
 	"time"
@@ -50,14 +61,15 @@ type c19Cfg struct {
 	Delim      string
 	Names      string // "counter" | "real"
 	Pre        []int  // ages of the pre-existing backups, hours
+	PreGz      string // "" = as Gzip | "mixed" = every second pre-existing backup the other way
 	PreCur     int    // bytes already in the current file
-	Via        string // "" = NewLogger with a rule built directly | "config" = newFileWriter(Config): the logging configuration path
+	Via        string
 }
 
 func c19ParseCfg(m kit.M) c19Cfg {
 	c := c19Cfg{Rule: kit.Str(m["rule"]), MaxSize: kit.Num(m["maxSize"]), MaxBackups: kit.Num(m["maxBackups"]),
 		Days: kit.Num(m["days"]), Gzip: kit.Bool(m["gzip"]), Delim: kit.Str(m["delim"]), Names: kit.Str(m["names"]),
-		PreCur: kit.Num(m["precur"]), Via: kit.Str(m["via"])}
+		PreCur: kit.Num(m["precur"]), Via: kit.Str(m["via"]), PreGz: kit.Str(m["pregz"])}
 	for _, a := range kit.List(m["pre"]) {
 		c.Pre = append(c.Pre, kit.Num(a))
 	}
@@ -67,33 +79,35 @@ func c19ParseCfg(m kit.M) c19Cfg {
 	return c
 }
 
-// c19Rule is the RotateRule handed to NewLogger.
+// c19Rule fronts the real rule of one logger.
 type c19Rule struct {
-	inner    RotateRule
-	daily    *DailyRotateRule
-	w        *c19World
-	calls    atomic.Int64
-	markerAt atomic.Int64
-	sig      chan struct{}
-	k        int
+	inner RotateRule
+	daily *DailyRotateRule
+	w     *c19World
+	f     *c19Fam
+	sig   chan struct{}
+	k     int
+	nrot  atomic.Int64
 }
 
 func (r *c19Rule) BackupFilename() string {
+	r.nrot.Add(1)
 	if r.w.cfg.Names != "counter" {
 		return r.inner.BackupFilename()
 	}
 	r.k++
-	w := r.w
+	w, f := r.w, r.f
 	if w.cfg.Rule == "size" {
 		t := w.now0.Add(-1800 * time.Second).Add(time.Duration(r.k) * time.Second)
-		return filepath.Join(w.dir, fmt.Sprintf("%s%s%s%s", w.prefix, w.cfg.Delim, t.Format(fileTimeFormat), w.ext))
+		return filepath.Join(w.dir, fmt.Sprintf("%s%s%s%s", f.prefix, w.cfg.Delim, t.Format(fileTimeFormat), f.ext))
 	}
-	return fmt.Sprintf("%s%s%s.%03d", w.filename, w.cfg.Delim, w.now0.Format(dateFormat), r.k)
+	return fmt.Sprintf("%s%s%s.%03d", f.filename, w.cfg.Delim, w.now0.Format(dateFormat), r.k)
 }
 func (r *c19Rule) MarkRotated()            { r.inner.MarkRotated() }
 func (r *c19Rule) OutdatedFiles() []string { return r.inner.OutdatedFiles() }
 func (r *c19Rule) ShallRotate(size int64) bool {
-	if n := r.calls.Add(1); n == r.markerAt.Load() {
+	// called by the writer goroutine, which owns currentSize: an empty record is the barrier
+	if lg := r.f.lg; lg != nil && size == lg.currentSize {
 		select {
 		case r.sig <- struct{}{}:
 		default:
@@ -103,39 +117,61 @@ func (r *c19Rule) ShallRotate(size int64) bool {
 	return r.inner.ShallRotate(size)
 }
 
+// c19Fam is one log file with its backups (one RotateLogger).
+type c19Fam struct {
+	name      string // "" | info | error | slow | stat | severe
+	level     string // public family: the level the entries of this file carry
+	filename  string
+	prefix    string
+	ext       string
+	lg        *RotateLogger
+	rule      *c19Rule
+	lastStart time.Time
+	seenTs    map[int]bool
+	events    []kit.M
+	written   bool
+}
+
 type c19World struct {
-	cfg      c19Cfg
-	dir      string
-	filename string
-	prefix   string // size rule: base name without extension
-	ext      string
-	now0     time.Time
-	day0     time.Time
-	sizes    map[int]int // issued record sizes by id
-	rule     *c19Rule
-	lg       *RotateLogger
-	base     int
-	sent     int64
-	ignore   map[string]bool // other log files of the configuration (never written by the driver)
+	cfg     c19Cfg
+	dir     string
+	now0    time.Time
+	day0    time.Time
+	sizes   map[int]int // issued record sizes by id (public family: content length)
+	linelen map[int]int // public family: observed length of the log line carrying the record
+	fams    []*c19Fam
+	base    int
+	public  bool
 }
 
 var c19Line = regexp.MustCompile(`^#(\d+) x*$`)
+var c19Content = regexp.MustCompile(`(?s)^(#(\d+) x*)(\n.*)?$`)
 
-func c19Record(id, size int) ([]byte, error) {
+func c19Text(id, size int) ([]byte, error) {
 	head := fmt.Sprintf("#%d ", id)
-	if size < len(head)+1 {
+	if size < len(head) {
 		return nil, fmt.Errorf("record size %d too small for id %d", size, id)
 	}
-	b := make([]byte, 0, size)
+	b := make([]byte, 0, size+1)
 	b = append(b, head...)
-	for len(b) < size-1 {
+	for len(b) < size {
 		b = append(b, 'x')
+	}
+	return b, nil
+}
+
+func c19Record(id, size int) ([]byte, error) {
+	b, err := c19Text(id, size-1)
+	if err != nil {
+		return nil, err
 	}
 	return append(b, '\n'), nil
 }
 
-// parse file content into record ids; a record whose length is not the issued one is -id
-func (w *c19World) parse(data []byte) (recs []int, junk int) {
+// parse file content into record ids; a record that is not complete (or, in the public family,
+// carries the level of another file) is -id.  own = bytes of the driver's records, last = size
+// of the last of them; junk = bytes that are no complete line / no log entry.
+func (w *c19World) parse(f *c19Fam, data []byte) (recs []int, junk, own, last int) {
 	recs = []int{}
 	for len(data) > 0 {
 		i := bytes.IndexByte(data, '\n')
@@ -145,16 +181,42 @@ func (w *c19World) parse(data []byte) (recs []int, junk int) {
 		}
 		line := data[:i]
 		data = data[i+1:]
-		m := c19Line.FindSubmatch(line)
-		if m == nil {
+		if !w.public {
+			m := c19Line.FindSubmatch(line)
+			if m == nil {
+				junk += i + 1
+				continue
+			}
+			id, _ := strconv.Atoi(string(m[1]))
+			if w.sizes[id] != i+1 {
+				id = -id
+			}
+			recs = append(recs, id)
+			own += i + 1
+			last = i + 1
+			continue
+		}
+		var e struct {
+			Content string `json:"content"`
+			Level   string `json:"level"`
+		}
+		if err := json.Unmarshal(line, &e); err != nil {
 			junk += i + 1
 			continue
 		}
-		id, _ := strconv.Atoi(string(m[1]))
-		if w.sizes[id] != i+1 {
+		m := c19Content.FindStringSubmatch(e.Content)
+		if m == nil {
+			continue // an entry that is not the driver's (the logger's own diagnostics)
+		}
+		id, _ := strconv.Atoi(m[2])
+		if w.sizes[id] != len(m[1]) || e.Level != f.level {
 			id = -id
+		} else {
+			w.linelen[id] = i + 1
 		}
 		recs = append(recs, id)
+		own += i + 1
+		last = i + 1
 	}
 	return
 }
@@ -172,14 +234,14 @@ func c19ReadFile(path string, gz bool) ([]byte, error) {
 }
 
 // backupName of a pre-existing backup whose name carries time t, in the real rules' formats
-func (w *c19World) backupName(t time.Time) string {
+func (w *c19World) backupName(f *c19Fam, t time.Time, gz bool) string {
 	var name string
 	if w.cfg.Rule == "size" {
-		name = filepath.Join(w.dir, fmt.Sprintf("%s%s%s%s", w.prefix, w.cfg.Delim, t.Format(fileTimeFormat), w.ext))
+		name = filepath.Join(w.dir, fmt.Sprintf("%s%s%s%s", f.prefix, w.cfg.Delim, t.Format(fileTimeFormat), f.ext))
 	} else {
-		name = fmt.Sprintf("%s%s%s", w.filename, w.cfg.Delim, t.Format(dateFormat))
+		name = fmt.Sprintf("%s%s%s", f.filename, w.cfg.Delim, t.Format(dateFormat))
 	}
-	if w.cfg.Gzip {
+	if gz {
 		name += gzipExt
 	}
 	return name
@@ -187,7 +249,7 @@ func (w *c19World) backupName(t time.Time) string {
 
 // parseName maps a backup file name to (ts, ageh): ts orders the backups as their names do,
 // ageh is the age in hours, at the start of the case, of the time the name carries.
-func (w *c19World) parseName(base string) (ts, ageh int, gz, ok bool) {
+func (w *c19World) parseName(f *c19Fam, base string) (ts, ageh int, gz, ok bool) {
 	rest := base
 	if strings.HasSuffix(rest, gzipExt) {
 		gz = true
@@ -196,17 +258,17 @@ func (w *c19World) parseName(base string) (ts, ageh int, gz, ok bool) {
 	var t time.Time
 	var err error
 	if w.cfg.Rule == "size" {
-		head := w.prefix + w.cfg.Delim
-		if !strings.HasPrefix(rest, head) || !strings.HasSuffix(rest, w.ext) {
+		head := f.prefix + w.cfg.Delim
+		if !strings.HasPrefix(rest, head) || !strings.HasSuffix(rest, f.ext) {
 			return
 		}
-		rest = strings.TrimSuffix(strings.TrimPrefix(rest, head), w.ext)
+		rest = strings.TrimSuffix(strings.TrimPrefix(rest, head), f.ext)
 		if t, err = time.Parse(fileTimeFormat, rest); err != nil {
 			return
 		}
 		ts = int(t.Unix() - w.now0.Unix())
 	} else {
-		head := filepath.Base(w.filename) + w.cfg.Delim
+		head := filepath.Base(f.filename) + w.cfg.Delim
 		if !strings.HasPrefix(rest, head) {
 			return
 		}
@@ -233,32 +295,49 @@ func (w *c19World) parseName(base string) (ts, ageh int, gz, ok bool) {
 	return ts, ageh, gz, true
 }
 
-// observe reads the directory back.
-func (w *c19World) observe() (kit.M, error) {
+// belongs: is this directory entry the current file or a backup of another family?
+func (w *c19World) foreign(f *c19Fam, name string) bool {
+	for _, o := range w.fams {
+		if o == f {
+			continue
+		}
+		b := filepath.Base(o.filename)
+		if name == b || strings.HasPrefix(name, o.prefix+w.cfg.Delim) || strings.HasPrefix(name, b+w.cfg.Delim) {
+			return true
+		}
+	}
+	return false
+}
+
+// observe reads the files of one family back.
+func (w *c19World) observe(f *c19Fam) (kit.M, error) {
 	ents, err := os.ReadDir(w.dir)
 	if err != nil {
 		return nil, err
 	}
-	obs := kit.M{"cur": []int{}, "cb": -1}
+	obs := kit.M{"cur": []int{}, "cb": -1, "clast": 0}
 	junk, alien := 0, 0
 	files := []kit.M{}
 	seen := map[int]bool{}
 	for _, e := range ents {
 		p := filepath.Join(w.dir, e.Name())
-		if p == w.filename {
+		if p == f.filename {
 			data, err := os.ReadFile(p)
 			if err != nil {
 				return nil, err
 			}
-			recs, j := w.parse(data)
+			recs, j, own, last := w.parse(f, data)
 			junk += j
-			obs["cur"], obs["cb"] = recs, len(data)
+			obs["cur"], obs["cb"], obs["clast"] = recs, len(data), last
+			if w.public {
+				obs["cb"] = own // the logger's own diagnostics share the access log: only the driver's bytes count
+			}
 			continue
 		}
-		if w.ignore[e.Name()] {
+		if w.foreign(f, e.Name()) {
 			continue
 		}
-		ts, ageh, gz, ok := w.parseName(e.Name())
+		ts, ageh, gz, ok := w.parseName(f, e.Name())
 		if !ok || seen[ts] {
 			alien++
 			continue
@@ -270,29 +349,72 @@ func (w *c19World) observe() (kit.M, error) {
 			junk++
 			data = nil
 		}
-		recs, j := w.parse(data)
+		recs, j, own, last := w.parse(f, data)
 		junk += j
-		files = append(files, kit.M{"ts": ts, "ageh": ageh, "gz": gz, "recs": recs})
+		files = append(files, kit.M{"ts": ts, "ageh": ageh, "gz": gz, "recs": recs, "bytes": own, "last": last})
 	}
 	sort.Slice(files, func(i, j int) bool { return files[i]["ts"].(int) < files[j]["ts"].(int) })
 	obs["files"], obs["junk"], obs["alien"] = files, junk, alien
 	return obs, nil
 }
 
+// barrier: every logger has processed everything queued and no post-rotation goroutine runs.
 func (w *c19World) barrier() error {
-	w.sent++
-	w.rule.markerAt.Store(w.sent)
-	if _, err := w.lg.Write([]byte{}); err != nil {
-		return fmt.Errorf("barrier record refused: %v", err)
+	for round := 0; round < 8; round++ {
+		for _, f := range w.fams {
+			select { // drop a stale signal
+			case <-f.rule.sig:
+			default:
+			}
+			if _, err := f.lg.Write([]byte{}); err != nil {
+				return fmt.Errorf("barrier record refused: %v", err)
+			}
+			select {
+			case <-f.rule.sig:
+			case <-time.After(30 * time.Second):
+				return fmt.Errorf("writer goroutine of %q did not reach the barrier record\n%s", f.name, kit.Stacks())
+			}
+		}
+		if runtime.NumGoroutine() <= w.base {
+			return nil
+		}
+		// a post-rotation goroutine (compress, clean-up) is running; in the public family it may log
+		// through the writers again, so flush once more afterwards
+		if !kit.WaitGoroutines(w.base, 30*time.Second) {
+			return fmt.Errorf("goroutines did not settle: have %d want <= %d\n%s", runtime.NumGoroutine(), w.base, kit.Stacks())
+		}
+		if !w.public {
+			return nil
+		}
 	}
-	select {
-	case <-w.rule.sig:
-	case <-time.After(30 * time.Second):
-		return fmt.Errorf("writer goroutine did not reach the barrier record\n%s", kit.Stacks())
+	return fmt.Errorf("the writers did not become quiescent")
+}
+
+var c19Mu sync.Mutex // the public family touches package state
+
+func (w *c19World) newFam(name, file, level string) *c19Fam {
+	f := &c19Fam{name: name, level: level, filename: filepath.Join(w.dir, file), seenTs: map[int]bool{}}
+	f.ext = filepath.Ext(f.filename)
+	f.prefix = strings.TrimSuffix(filepath.Base(f.filename), f.ext)
+	f.rule = &c19Rule{w: w, f: f, sig: make(chan struct{}, 1)}
+	w.fams = append(w.fams, f)
+	return f
+}
+
+// front puts the barrier-recognising wrapper in front of the rule a logger was built with
+// (the writer goroutine is idle: nothing has been written yet).
+func (f *c19Fam) front(wc io.WriteCloser) error {
+	lg, ok := wc.(*RotateLogger)
+	if !ok {
+		return fmt.Errorf("log %q is a %T", f.name, wc)
 	}
-	if !kit.WaitGoroutines(w.base, 30*time.Second) {
-		return fmt.Errorf("goroutines did not settle: have %d want <= %d\n%s", runtime.NumGoroutine(), w.base, kit.Stacks())
+	if lg.filename != f.filename {
+		return fmt.Errorf("log %q writes %s, expected %s", f.name, lg.filename, f.filename)
 	}
+	f.rule.inner = lg.rule
+	f.rule.daily, _ = lg.rule.(*DailyRotateRule)
+	f.lg = lg
+	lg.rule = f.rule
 	return nil
 }
 
@@ -305,38 +427,57 @@ func runC19Case(c kit.Case, root string, tr *kit.Tracer, rep *kit.Reporter) (v k
 		return infra(fmt.Errorf("history does not start with init"))
 	}
 	cfgm, _ := c.Steps[0]["cfg"].(map[string]any)
-	w := &c19World{cfg: c19ParseCfg(cfgm), sizes: map[int]int{}}
+	w := &c19World{cfg: c19ParseCfg(cfgm), sizes: map[int]int{}, linelen: map[int]int{}}
+	w.public = w.cfg.Via == "public"
 	w.dir = filepath.Join(root, fmt.Sprintf("case-%d", c.Index))
 	os.RemoveAll(w.dir)
 	if err := os.MkdirAll(w.dir, 0o755); err != nil {
 		return infra(err)
 	}
 	defer os.RemoveAll(w.dir)
-	w.filename = filepath.Join(w.dir, "app.log")
-	if w.cfg.Via == "config" {
-		w.filename = filepath.Join(w.dir, accessFilename)
-		w.ignore = map[string]bool{errorFilename: true, severeFilename: true, slowFilename: true, statFilename: true}
+	switch w.cfg.Via {
+	case "":
+		w.newFam("", "app.log", "")
+	case "config", "public":
+		w.newFam("info", accessFilename, levelInfo)
+		w.newFam("error", errorFilename, levelError)
+		w.newFam("severe", severeFilename, levelFatal)
+		w.newFam("slow", slowFilename, levelSlow)
+		w.newFam("stat", statFilename, levelStat)
 		if w.cfg.Names != "real" || w.cfg.Delim != backupFileDelimiter {
-			return infra(fmt.Errorf("the config family uses the real backup names and delimiter"))
+			return infra(fmt.Errorf("the %s family uses the real backup names and delimiter", w.cfg.Via))
 		}
+	default:
+		return infra(fmt.Errorf("unknown family %q", w.cfg.Via))
 	}
-	w.ext = filepath.Ext(w.filename)
-	w.prefix = strings.TrimSuffix(filepath.Base(w.filename), w.ext)
+	main := w.fams[0]
 	w.now0 = time.Now()
 	y, m, d := w.now0.Date()
 	w.day0 = time.Date(y, m, d, 0, 0, 0, 0, time.Local)
 
-	// pre-existing backups and current file
+	// pre-existing backups and current file (of the first family)
 	for i, age := range w.cfg.Pre {
+		gz := w.cfg.Gzip
+		if w.cfg.PreGz == "mixed" && i%2 == 1 {
+			gz = !gz
+		}
 		var content []byte
 		for j := 1; j <= 2; j++ {
 			id := 1000 + 10*(i+1) + j
-			rec, _ := c19Record(id, 10)
-			w.sizes[id] = 10
+			var rec []byte
+			if w.public {
+				txt, _ := c19Text(id, 10)
+				w.sizes[id] = 10
+				rec, _ = json.Marshal(map[string]any{"@timestamp": "2000-01-01T00:00:00.000Z", "level": main.level, "content": string(txt)})
+				rec = append(rec, '\n')
+			} else {
+				rec, _ = c19Record(id, 10)
+				w.sizes[id] = 10
+			}
 			content = append(content, rec...)
 		}
-		name := w.backupName(w.now0.Add(-time.Duration(age) * time.Hour))
-		if w.cfg.Gzip {
+		name := w.backupName(main, w.now0.Add(-time.Duration(age)*time.Hour), gz)
+		if gz {
 			var buf bytes.Buffer
 			zw := gzip.NewWriter(&buf)
 			zw.Write(content)
@@ -350,30 +491,61 @@ func runC19Case(c kit.Case, root string, tr *kit.Tracer, rep *kit.Reporter) (v k
 			return infra(err)
 		}
 	}
-	if w.cfg.PreCur > 0 {
+	if w.cfg.PreCur > 0 && !w.public {
 		rec, err := c19Record(900, w.cfg.PreCur)
 		if err != nil {
 			return infra(err)
 		}
 		w.sizes[900] = w.cfg.PreCur
-		if err := os.WriteFile(w.filename, rec, 0o600); err != nil {
+		if err := os.WriteFile(main.filename, rec, 0o600); err != nil {
 			return infra(err)
 		}
 	}
 
-	// the real rule, wrapped
-	rule := &c19Rule{w: w, sig: make(chan struct{}, 1)}
-	w.rule = rule
-	var lg *RotateLogger
-	closeAll := func() error { return lg.Close() }
-	if w.cfg.Via == "config" {
-		// the logging configuration path: options + createOutput for the five log files
-		conf := Config{Path: w.dir, Rotation: w.cfg.Rule, KeepDays: w.cfg.Days, MaxBackups: w.cfg.MaxBackups,
-			Compress: w.cfg.Gzip, StackCooldownMillis: 100}
+	// build the writers
+	closeAll := func() error { return main.lg.Close() }
+	conf := Config{Mode: fileMode, Path: w.dir, Rotation: w.cfg.Rule, KeepDays: w.cfg.Days, MaxBackups: w.cfg.MaxBackups,
+		Compress: w.cfg.Gzip, StackCooldownMillis: 100}
+	if w.cfg.Via != "" {
 		if w.cfg.MaxSize%megaBytes != 0 {
-			return infra(fmt.Errorf("config family: maxSize must be whole megabytes"))
+			return infra(fmt.Errorf("%s family: maxSize must be whole megabytes", w.cfg.Via))
 		}
 		conf.MaxSize = w.cfg.MaxSize / megaBytes
+	}
+	switch w.cfg.Via {
+	case "public":
+		// the public API; Setup is once-only and the option set is package-global: start every case
+		// from the package's initial state
+		c19Mu.Lock()
+		defer c19Mu.Unlock()
+		if old := writer.Swap(nil); old != nil {
+			if cl, ok := old.(io.Closer); ok {
+				cl.Close()
+			}
+		}
+		setupOnce = sync.Once{}
+		options = logOptions{}
+		atomic.StoreUint32(&disableLog, 0)
+		atomic.StoreUint32(&disableStat, 0)
+		atomic.StoreUint32(&logLevel, 0)
+		defer Disable() // back to "the logger's diagnostics are not under test"
+		w.base = runtime.NumGoroutine()
+		if err := Setup(conf); err != nil {
+			return infra(err)
+		}
+		cw, ok := writer.Load().(*concreteWriter)
+		if !ok {
+			return infra(fmt.Errorf("Setup installed a %T", writer.Load()))
+		}
+		for i, wc := range []io.WriteCloser{cw.infoLog, cw.errorLog, cw.severeLog, cw.slowLog, cw.statLog} {
+			if err := w.fams[i].front(wc); err != nil {
+				return infra(err)
+			}
+		}
+		closeAll = Close
+		w.base += 5
+		rep.Count("public_api_"+w.cfg.Rule, 1)
+	case "config":
 		options = logOptions{} // the option set is package-global: start from the defaults
 		w.base = runtime.NumGoroutine()
 		wr, err := newFileWriter(conf)
@@ -384,145 +556,266 @@ func runC19Case(c kit.Case, root string, tr *kit.Tracer, rep *kit.Reporter) (v k
 		if !ok {
 			return infra(fmt.Errorf("newFileWriter returned %T", wr))
 		}
-		if lg, ok = cw.infoLog.(*RotateLogger); !ok {
-			return infra(fmt.Errorf("access log is a %T", cw.infoLog))
+		for i, wc := range []io.WriteCloser{cw.infoLog, cw.errorLog, cw.severeLog, cw.slowLog, cw.statLog} {
+			if err := w.fams[i].front(wc); err != nil {
+				return infra(err)
+			}
 		}
-		if lg.filename != w.filename {
-			return infra(fmt.Errorf("access log file is %s, expected %s", lg.filename, w.filename))
-		}
-		// keep the rule createOutput built; only put the barrier-recognising wrapper in front of it
-		// (the writer goroutine is idle: nothing has been written yet)
-		rule.inner = lg.rule
-		rule.daily, _ = lg.rule.(*DailyRotateRule)
-		lg.rule = rule
 		closeAll = wr.Close
 		w.base += 5
 		rep.Count("config_path_"+w.cfg.Rule, 1)
-	} else {
+	default:
+		rule := main.rule
 		switch w.cfg.Rule {
 		case "size":
 			if w.cfg.MaxSize > 0 && w.cfg.MaxSize%megaBytes == 0 {
-				rule.inner = NewSizeLimitRotateRule(w.filename, w.cfg.Delim, w.cfg.Days, w.cfg.MaxSize/megaBytes, w.cfg.MaxBackups, w.cfg.Gzip)
+				rule.inner = NewSizeLimitRotateRule(main.filename, w.cfg.Delim, w.cfg.Days, w.cfg.MaxSize/megaBytes, w.cfg.MaxBackups, w.cfg.Gzip)
 				rep.Count("rule_size_public_ctor", 1)
 			} else {
-				r := NewSizeLimitRotateRule(w.filename, w.cfg.Delim, w.cfg.Days, 1, w.cfg.MaxBackups, w.cfg.Gzip).(*SizeLimitRotateRule)
+				r := NewSizeLimitRotateRule(main.filename, w.cfg.Delim, w.cfg.Days, 1, w.cfg.MaxBackups, w.cfg.Gzip).(*SizeLimitRotateRule)
 				r.maxSize = int64(w.cfg.MaxSize)
 				rule.inner = r
 			}
 		case "daily":
-			r := DefaultRotateRule(w.filename, w.cfg.Delim, w.cfg.Days, w.cfg.Gzip).(*DailyRotateRule)
+			r := DefaultRotateRule(main.filename, w.cfg.Delim, w.cfg.Days, w.cfg.Gzip).(*DailyRotateRule)
 			rule.inner, rule.daily = r, r
 		default:
 			return infra(fmt.Errorf("unknown rule %q", w.cfg.Rule))
 		}
 		w.base = runtime.NumGoroutine()
-		var err error
-		if lg, err = NewLogger(w.filename, rule, w.cfg.Gzip); err != nil {
+		lg, err := NewLogger(main.filename, rule, w.cfg.Gzip)
+		if err != nil {
 			return infra(err)
 		}
+		main.lg = lg
 		w.base++
 	}
-	w.lg = lg
+	nworkers := len(w.fams)
 	closed := false
 	defer func() {
 		if !closed {
 			closeAll()
 		}
 	}()
-	lastStart := time.Now()
 
-	obs, err := w.observe()
-	if err != nil {
-		return infra(err)
+	// init events
+	for _, f := range w.fams {
+		f.lastStart = time.Now()
+		obs, err := w.observe(f)
+		if err != nil {
+			return infra(err)
+		}
+		for _, x := range obs["files"].([]kit.M) {
+			f.seenTs[x["ts"].(int)] = true
+		}
+		if f == main && len(obs["files"].([]kit.M)) != len(w.cfg.Pre) {
+			return infra(fmt.Errorf("%d pre-existing backups created, %d seen", len(w.cfg.Pre), len(obs["files"].([]kit.M))))
+		}
+		obs["ev"], obs["h"], obs["fam"] = "init", c.Index, f.name
+		obs["cfg"] = kit.M{"rule": w.cfg.Rule, "maxSize": w.cfg.MaxSize, "maxBackups": w.cfg.MaxBackups, "days": w.cfg.Days,
+			"gzip": w.cfg.Gzip, "slack": 0}
+		f.events = append(f.events, obs)
 	}
-	nfiles := len(obs["files"].([]kit.M))
-	obs["ev"], obs["h"] = "init", c.Index
-	obs["cfg"] = kit.M{"rule": w.cfg.Rule, "maxSize": w.cfg.MaxSize, "maxBackups": w.cfg.MaxBackups, "days": w.cfg.Days,
-		"gzip": w.cfg.Gzip, "slack": 0}
-	seenTs := map[int]bool{}
-	for _, f := range obs["files"].([]kit.M) {
-		seenTs[f["ts"].(int)] = true
+	famOf := func(st kit.M) *c19Fam {
+		name := kit.Str(st["fam"])
+		for _, f := range w.fams {
+			if f.name == name {
+				return f
+			}
+		}
+		return main
 	}
-	if nfiles != len(w.cfg.Pre) {
-		return infra(fmt.Errorf("%d pre-existing backups created, %d seen", len(w.cfg.Pre), nfiles))
+	// noteRotations: backups that were not there before mean the logger started a new file
+	noteRotations := func(f *c19Fam, obs kit.M) {
+		for _, x := range obs["files"].([]kit.M) {
+			if ts := x["ts"].(int); !f.seenTs[ts] {
+				f.seenTs[ts] = true
+				f.lastStart = time.Now()
+				rep.Count("rotations_seen", 1)
+				if w.cfg.Via != "" {
+					rep.Count(w.cfg.Via+"_rotations", 1)
+				}
+			}
+		}
 	}
-	tr.Emit(obs)
-
 	id := 0
+	// send one record; returns its id
+	send := func(f *c19Fam, size int) (int, error) {
+		id++
+		w.sizes[id] = size
+		if w.cfg.Names == "real" && w.cfg.Rule == "size" {
+			// backup names have one-second resolution: keep file starts 1.1 s apart
+			if d := time.Until(f.lastStart.Add(1100 * time.Millisecond)); d > 0 {
+				time.Sleep(d)
+				rep.Count("real_name_waits", 1)
+			}
+		}
+		if w.public {
+			txt, err := c19Text(id, size)
+			if err != nil {
+				return id, err
+			}
+			switch f.name {
+			case "info":
+				Info(string(txt))
+			case "error":
+				Error(string(txt))
+			case "severe":
+				Severe(string(txt))
+			case "slow":
+				Slow(string(txt))
+			case "stat":
+				Stat(string(txt))
+			}
+			rep.Count("public_"+f.name, 1)
+			return id, nil
+		}
+		rec, err := c19Record(id, size)
+		if err != nil {
+			return id, err
+		}
+		n, err := f.lg.Write(rec)
+		if err != nil || n != len(rec) {
+			return id, fmt.Errorf("Write before Close returned (%d, %v)", n, err)
+		}
+		return id, nil
+	}
+	sizeOf := func(id int) int {
+		if w.public {
+			return w.linelen[id] // 0 when the record was not found
+		}
+		return w.sizes[id]
+	}
+
 	for _, st := range c.Steps[1:] {
 		switch op := kit.Str(st["op"]); op {
 		case "write":
-			id++
-			size := kit.Num(st["size"])
-			rec, err := c19Record(id, size)
+			f := famOf(st)
+			f.written = true
+			rid, err := send(f, kit.Num(st["size"]))
 			if err != nil {
 				return infra(err)
-			}
-			w.sizes[id] = size
-			if w.cfg.Names == "real" && w.cfg.Rule == "size" {
-				// backup names have one-second resolution: keep file starts 1.1 s apart
-				if d := time.Until(lastStart.Add(1100 * time.Millisecond)); d > 0 {
-					time.Sleep(d)
-					rep.Count("real_name_waits", 1)
-				}
-			}
-			w.sent++
-			n, err := lg.Write(rec)
-			if err != nil || n != len(rec) {
-				return infra(fmt.Errorf("Write before Close returned (%d, %v)", n, err))
 			}
 			if err := w.barrier(); err != nil {
 				return infra(err)
 			}
-			obs, err := w.observe()
+			obs, err := w.observe(f)
 			if err != nil {
 				return infra(err)
 			}
-			for _, f := range obs["files"].([]kit.M) {
-				if ts := f["ts"].(int); !seenTs[ts] {
-					// a backup that was not there before: the logger rotated and started a new file
-					seenTs[ts] = true
-					lastStart = time.Now()
-					rep.Count("rotations_seen", 1)
-					if w.cfg.Via == "config" {
-						rep.Count("config_path_rotations", 1)
+			noteRotations(f, obs)
+			obs["ev"], obs["id"], obs["size"] = "write", rid, sizeOf(rid)
+			f.events = append(f.events, obs)
+			if w.public {
+				// the logger's own diagnostics (e.g. "compressing ...") go through the access/error
+				// writers and may rotate them: the other files are observed too, as a step that
+				// writes none of the driver's records
+				for _, g := range w.fams {
+					if g == f {
+						continue
 					}
+					o, err := w.observe(g)
+					if err != nil {
+						return infra(err)
+					}
+					noteRotations(g, o)
+					o["ev"], o["ids"] = "burst", []int{}
+					g.events = append(g.events, o)
 				}
 			}
-			obs["ev"], obs["id"], obs["size"] = "write", id, size
-			tr.Emit(obs)
+		case "burst", "closeq":
+			f := famOf(st)
+			f.written = true
+			ids := []int{}
+			for _, s := range kit.List(st["sizes"]) {
+				rid, err := send(f, kit.Num(s)) // no barrier: the writes race the post-rotation goroutine
+				if err != nil {
+					return infra(err)
+				}
+				ids = append(ids, rid)
+			}
+			var cerr error
+			if op == "closeq" {
+				cerr = closeAll() // with records possibly still queued
+				closed = true
+				w.base -= nworkers
+				if !kit.WaitGoroutines(w.base, 30*time.Second) {
+					return infra(fmt.Errorf("goroutines did not settle after Close\n%s", kit.Stacks()))
+				}
+			} else if err := w.barrier(); err != nil {
+				return infra(err)
+			}
+			for _, g := range w.fams {
+				if g != f && op != "closeq" {
+					continue
+				}
+				obs, err := w.observe(g)
+				if err != nil {
+					return infra(err)
+				}
+				if g == f {
+					noteRotations(f, obs)
+					obs["ev"], obs["ids"] = op, ids
+					if op == "closeq" {
+						rep.Count("closeq_records", len(ids))
+					} else {
+						rep.Count("burst_records", len(ids))
+					}
+				} else {
+					obs["ev"], obs["ids"] = "closeq", []int{}
+				}
+				obs["err"] = ""
+				if cerr != nil {
+					obs["err"] = cerr.Error()
+				}
+				g.events = append(g.events, obs)
+			}
 		case "daychange":
-			if rule.daily == nil {
+			n := 0
+			for _, f := range w.fams {
+				if f.rule.daily != nil {
+					f.rule.daily.rotatedTime = "2000-01-01" // the writer goroutines are idle (barrier)
+					f.events = append(f.events, kit.M{"ev": "daychange"})
+					n++
+				}
+			}
+			if n == 0 {
 				return infra(fmt.Errorf("daychange under rule %s", w.cfg.Rule))
 			}
-			rule.daily.rotatedTime = "2000-01-01" // the writer goroutine is idle (barrier)
-			tr.Emit(kit.M{"ev": "daychange"})
 			rep.Count("daychanges", 1)
 		case "close":
 			cerr := closeAll()
 			closed = true
-			if w.cfg.Via == "config" {
-				w.base -= 5
-			} else {
-				w.base--
-			}
+			w.base -= nworkers
 			if !kit.WaitGoroutines(w.base, 30*time.Second) {
 				return infra(fmt.Errorf("goroutines did not settle after Close\n%s", kit.Stacks()))
 			}
-			obs, err := w.observe()
-			if err != nil {
-				return infra(err)
+			for _, f := range w.fams {
+				obs, err := w.observe(f)
+				if err != nil {
+					return infra(err)
+				}
+				obs["ev"], obs["err"] = "close", ""
+				if cerr != nil {
+					obs["err"] = cerr.Error()
+					rep.Count("close_errors", 1)
+				}
+				f.events = append(f.events, obs)
 			}
-			obs["ev"], obs["err"] = "close", ""
-			if cerr != nil {
-				obs["err"] = cerr.Error()
-				rep.Count("close_errors", 1)
-			}
-			tr.Emit(obs)
 		default:
 			return infra(fmt.Errorf("unknown op %q", op))
 		}
 		v.Steps++
+	}
+	// one history per log file; files of the configuration the case never wrote to are listed
+	// only in the public family (a record must not turn up in another file)
+	for _, f := range w.fams {
+		if f != main && !f.written && !w.public {
+			continue
+		}
+		for _, e := range f.events {
+			tr.Emit(e)
+		}
 	}
 	return v
 }
